@@ -120,6 +120,20 @@ XSH_IN_PY = ["x = $(ls)", "x = $( ls  -l )", "x=$(ls)", "x = !(ls)", "x = !( ls 
              "ls?", "x??", "len?", "$X?", "x = $(echo! raw   text)", "![echo!  a   b]", "x = !(cmd!  r  w )",
              "x = $(echo a)", "x = $(echo @$(which ls))", "x = $(echo ${'H'})", "print(@.env['X'])"]
 
+# Characters that str.splitlines() takes for a line end and xonsh's tokenizer (which reads lines with
+# readline, i.e. up to "\n") does not.  A formatter that keeps a cache of the source lines next to the token
+# stream must split both the same way; whatever it copies from that cache (leading blanks of continuation
+# lines inside brackets, literal parts of f-strings, raw macro text) comes from the wrong line otherwise.
+# (A lone "\r" is the ninth such character; the command line reads files with universal newlines, so it never
+# reaches format_source.)
+EXOTIC_SEPARATORS = ["\x0c", "\x0b", "\x1c", "\x1d", "\x1e", "\x85", "\u2028", "\u2029"]
+# statements whose text the formatter copies from the raw source lines (all free of the recorded shapes)
+RAW_COPIED = ["y = (1,\n     2)", "def f(a,\n      b):\n    return g(\n        a,\n        b,\n    )", "z = [\n    1,\n  2,\n]",
+              "x = {\n  'a': 1,\n      'b': 2}", "f(a,\n  b,\n      c)", "x = [1,  # one\n     2]  # two", "from os import (path,\n    sep)",
+              "x = (a\n     and b\n  or c)", "w = f'{{a}} {b} {{c}}'", "w = f'{{{q}}}'", "w = f'a{x}b{y}c'", "w = f'{x}:{y}'  # c",
+              "z = f\'\'\'{{x}}  k\n {y} \'\'\'", "z = f\'\'\'a\n{x}\n  b\'\'\'", "s = \'\'\'a\n  b\n\'\'\'", "s = ('a'\n     'b')",
+              "x = d['a':\n      'b']", "t = f(\n        a,\n  b)", "w = f\"{a!r:>{w}}\" + f'{{x}}  {y}'"]
+
 import re
 
 _PYPART = re.compile(r"@\([^)]*\)|\$\{[^}]*\}|'[^'\n]*'|\"[^\"\n]*\"")
@@ -532,6 +546,60 @@ class XGen:
         else:
             src += "\n"
         return src
+
+    # -- characters that only str.splitlines() takes for line ends -------------------------------
+    def exotic_head(self):
+        """One or two top-level lines holding one of EXOTIC_SEPARATORS where xonsh's grammar allows it: inside a
+        comment, a string literal, a docstring, an f-string's literal part; the form feed also as a page-break line
+        of its own, at the end of a statement line and in front of a comment (never inside indentation)."""
+        c = self.pick(EXOTIC_SEPARATORS + ["\x0c", "\x0c"])      # the form feed has three places of its own
+        self.lab("exotic:U+%04X" % ord(c))
+        k = self.k(9 if c == "\x0c" else 6)
+        self.lab("exotic-in:" + ["comment", "string", "docstring", "trailing-comment", "fstring-literal", "string-in-brackets",
+                                 "page-break-line", "line-end", "before-comment"][k])
+        if k == 0:
+            return self.pick(["# sec%stion", "#%s", "# %s page", "#: a %s b  "]) % c
+        if k == 1:
+            return self.pick(["SEP = '%s'", "s = 'a%sb'", 's = "%s  x"', "s = r'a%sb' 'c'"]) % c
+        if k == 2:
+            return self.pick(["\'\'\'doc%s\nmore\'\'\'", '"""%s"""', '"""a\n%s\nb"""']) % c
+        if k == 3:
+            return self.pick(["x = 1  # t%s", "x = 1 # a%sb", "import os  #%s"]) % c
+        if k == 4:
+            return self.pick(["s = f'a%s{x}'", "s = f'{x}%s'", 's = f"{{%s}} {x}"']) % c
+        if k == 5:
+            return self.pick(["t = ['a%sb',\n     1]", "f('%s',\n  2)"]) % c
+        if k == 6:
+            return self.pick(["import os\n%s\nimport sys", "%s", "x = 1\n\n%s\n"]) % c
+        if k == 7:
+            return self.pick(["x = 1%s", "import os%s", "f(a)  %s"]) % c
+        return self.pick(["%s# c", "%s#c  "]) % c
+
+    def exotic_program(self):
+        """A top-level program in which one of EXOTIC_SEPARATORS comes first and text that the formatter copies from
+        the raw source lines (continuation lines inside brackets, f-string literal parts, macro bodies) follows."""
+        self.labels = []
+        lines = [self.exotic_head()]
+        for _ in range(self.k(3)):
+            self.filler(0, "", lines)
+            lines.append(self.pool(PY_SIMPLE) if self.k(4) else self.trailing_comment(self.simple()))
+        for _ in range(1 + self.k(3)):
+            self.filler(0, "", lines)
+            c = self.k(8)
+            if c < 5:
+                self.lab("raw-copied:python")
+                lines.append(self.pick(RAW_COPIED))
+            elif c == 5:
+                self._kind = "command"
+                lines.append(self.alias_macro())
+            elif c == 6:
+                lines.append(self.func_macro())
+            else:
+                lines.extend(self.block_macro("", "    "))
+        if self.chance(1, 3):
+            lines.append(self.exotic_head())
+            lines.append(self.pick(RAW_COPIED))
+        return "\n".join(lines) + self.pick(["\n", "\n", "", "\n\n"])
 
     def one_line(self):
         """a single statement at top level (the bulk of the subprocess / macro space)"""
